@@ -788,10 +788,11 @@ class ReceiveImplTask(MethodTask):
     method = '_receive_impl'
     one_iteration = True
 
-    def __init__(self, prop, cls):
+    def __init__(self, prop, cls, later_iteration=False):
         self.cls = cls
-        super().__init__(prop, None)
-        self.name = f'{prop}:{cls}._receive_impl'
+        self.later_iteration = later_iteration
+        super().__init__(prop, 'later-iteration' if later_iteration else None)
+        self.name = f'{prop}:{cls}._receive_impl' + ('[later-iteration]' if later_iteration else '')
 
     def make(self, ex, r):
         gw = {'ActisenseNmea2000Gateway': 'ACTISENSE', 'YachtDevicesNmea2000Gateway': 'YACHT_DEVICES'}.get(self.cls)
@@ -830,7 +831,7 @@ class ReceiveImplTask(MethodTask):
                 return 'stop'
             # the iteration that is checked is the first one of the scan loop or any later one: by the loop's own contract
             # (checked below for every iteration) the buffer of a later iteration is a suffix of the buffer the loop started with
-            if ex.choose(2, 'first-iteration-or-a-later-one') == 1:
+            if self.later_iteration:
                 buf = st['client'].obj.attrs.get('_buffer')
                 if isinstance(buf, ABuf):
                     k = ex.fresh('bytes_consumed_by_earlier_iterations', lo=0)
